@@ -15,7 +15,8 @@ import (
 var _ = packet.NewPuback
 
 type step struct {
-	kind string // in | inerr | deq | ack | ackall | close | settle | reconnect
+	kind string // in | inerr | deq | ack | ackall | close | settle | reconnect | drain | react
+	name string // react: the new mode
 	pkt  packet.Generic
 	msg  *packet.Message
 	k    int
@@ -154,7 +155,7 @@ func runScenario(sc *scenario) *result {
 	acked := map[int]bool{} // ids fully acknowledged by the reactive peer (per connection)
 	recd := map[int]bool{}  // ids for which PUBREC was sent
 	reactOnce := func() bool {
-		if sc.react == "" {
+		if sc.react == "" || sc.react == "none" {
 			return false
 		}
 		var pend []*packet.Publish
@@ -180,6 +181,9 @@ func runScenario(sc *scenario) *result {
 			}
 		}
 		did := false
+		if sc.react == "recstall" {
+			rels = nil // PUBCOMP is withheld
+		}
 		for _, id := range rels {
 			acked[id] = true
 			conn.feed(&packet.Pubcomp{ID: packet.ID(id)})
@@ -202,6 +206,9 @@ func runScenario(sc *scenario) *result {
 		}
 		for _, v := range pend {
 			if v.Message.QOS == 1 {
+				if sc.react == "recstall" {
+					continue
+				}
 				acked[int(v.ID)] = true
 				conn.feed(&packet.Puback{ID: v.ID})
 			} else {
@@ -241,6 +248,8 @@ func runScenario(sc *scenario) *result {
 			b.fresh = st.fresh
 			acked, recd = map[int]bool{}, map[int]bool{}
 			open()
+		case "react":
+			sc.react = st.name
 		case "drain":
 			// the reactive peer keeps acknowledging until nothing is left to acknowledge
 			for i := 0; i < 400; i++ {
